@@ -23,6 +23,9 @@ def parse_binary_unary_op(ordering, node):
 
         return ~parse_binary_expr(ordering, node.operand)
 
+    raise SyntaxError('expected a unary binary operator, got a ' +
+                      '{}'.format(node.op.__class__))
+
 
 def parse_binary_op(ordering, node):
     if isinstance(node.op, ast.BitAnd):
